@@ -26,14 +26,17 @@ def served : Op → Reply → Option Nat
 
 /-- Invariant `Bind4` after every history that never takes the circuit-id path: the pool never books an address
     twice and serves only usable, undeclined host addresses, and every lease (expired or not) is backed by the
-    pool binding of the same MAC. -/
-theorem v4_bind4_partial (c : Cfg) (ops : List Op) (hn : noCircuitHit (init c) ops = true) :
+    pool binding of the same MAC or — in Nexus mode — is that MAC's Nexus allocation.  Histories include cleanup
+    passes split at their lock gap (`Op.cleanupApply` with ANY scan time and MAC list, after any messages).
+    `NexusOk c` is the assumption about the external Nexus API (its allocations are unique per address and are not
+    host addresses of the local pool); it holds trivially when the HTTP allocator is not configured. -/
+theorem v4_bind4_partial (c : Cfg) (hN : NexusOk c) (ops : List Op) (hn : noCircuitHit (init c) ops = true) :
     Bind4 (run (init c) ops) :=
-  bind4_run (bind4_init c) ops hn
+  bind4_run (bind4_init c hN) ops hn
 
-/-- Without any clause (also under finding D9): the POOL never holds one address for two MACs, never has an
-    address both free and allocated or twice on the free list, and holds only host addresses of the network that
-    are not the network, broadcast or gateway address and were not declined. -/
+/-- Without any clause (also under finding D9, and whatever Nexus answers): the POOL never holds one address for
+    two MACs, never has an address both free and allocated or twice on the free list, and holds only host addresses
+    of the network that are not the network, broadcast or gateway address and were not declined. -/
 theorem v4_pool_never_double_books (c : Cfg) (ops : List Op) :
     PoolInv c (run (init c) ops).pool := by
   have := poolInv_run (s := init c) (poolInv_init c) ops
@@ -41,143 +44,83 @@ theorem v4_pool_never_double_books (c : Cfg) (ops : List Op) :
   exact this
 
 /-- One binding per address: two leases in the table (unexpired or not) on the same address belong to the same MAC. -/
-theorem v4_one_binding_per_addr_partial (c : Cfg) (ops : List Op) (hn : noCircuitHit (init c) ops = true)
-    (k₁ k₂ : Nat) (l₁ l₂ : Lease)
+theorem v4_one_binding_per_addr_partial (c : Cfg) (hN : NexusOk c) (ops : List Op)
+    (hn : noCircuitHit (init c) ops = true) (k₁ k₂ : Nat) (l₁ l₂ : Lease)
     (h₁ : lookup (run (init c) ops).leases k₁ = some l₁)
     (h₂ : lookup (run (init c) ops).leases k₂ = some l₂) (he : l₁.ip = l₂.ip) : k₁ = k₂ := by
-  have hI := v4_bind4_partial c ops hn
-  have a := hI.held _ _ h₁
-  have b := hI.held _ _ h₂
+  have hI := v4_bind4_partial c hN ops hn
+  have a : Backed _ k₁ l₁.ip := hI.held _ _ h₁
+  have b : Backed _ k₂ l₂.ip := hI.held _ _ h₂
   rw [he] at a
-  exact hI.pool.inj _ _ _ a b
+  exact backing_unique hI a b
 
 /-- An ACK never carries an address that is leased or offered (held in the pool) to a different MAC. -/
-theorem v4_ack_not_foreign_partial (c : Cfg) (ops : List Op) (hn : noCircuitHit (init c) ops = true)
+theorem v4_ack_not_foreign_partial (c : Cfg) (hN : NexusOk c) (ops : List Op)
+    (hn : noCircuitHit (init c) ops = true)
     (m : Msg) (hm : circuitHit (run (init c) ops) m = false) (ip lt : Nat)
     (hack : (request (run (init c) ops) m).2 = .ack ip lt) (k : Nat) (hk : k ≠ m.mac) :
     lookup (run (init c) ops).pool.allocated k ≠ some ip ∧
     ∀ l, lookup (run (init c) ops).leases k = some l → l.ip ≠ ip := by
-  have hI := v4_bind4_partial c ops hn
+  have hI := v4_bind4_partial c hN ops hn
   generalize run (init c) ops = s at *
-  have hex := existing_of_noHit hm
-  have key : lookup s.pool.allocated k ≠ some ip := by
-    intro hk2
-    unfold request at hack
-    rw [hex] at hack
-    cases e : lookup s.leases m.mac with
-    | some l =>
-      simp only [e] at hack
-      by_cases e2 : l.ip = requestedOf m
-      · simp only [e2, ne_eq, not_true_eq_false, if_false, commit] at hack
-        simp only [Reply.ack.injEq] at hack
-        have h1 := hI.held _ _ e
-        rw [e2, hack.1] at h1
-        exact hk (hI.pool.inj _ _ _ hk2 h1)
-      · simp [e2] at hack
-    | none =>
-      simp only [e] at hack
-      by_cases e2 : s.cfg.contains (requestedOf m) = true
-      · simp only [e2, Bool.not_true, Bool.false_eq_true, if_false] at hack
-        cases e3 : s.pool.reserve m.mac (requestedOf m) with
-        | mk p b =>
-          rw [e3] at hack
-          cases b with
-          | false => simp at hack
-          | true =>
-            simp only [commit, Reply.ack.injEq] at hack
-            have h1 := (reserve_true_iff (p := s.pool) (mac := m.mac) (ip := requestedOf m)).mp (by rw [e3])
-            rw [hack.1] at h1
-            rcases h1 with h1 | h1
-            · exact hk (hI.pool.inj _ _ _ hk2 h1)
-            · exact hI.pool.disj _ _ hk2 h1
-      · simp [e2] at hack
-  exact ⟨key, fun l hl e => key (by rw [← e]; exact hI.held _ _ hl)⟩
+  have hI' : Bind4 (request s m).1 := bind4_step hI (.request m) hm
+  obtain ⟨l0, hl0, hip0⟩ := ack_lease hack
+  have hmine : Backed (request s m).1 m.mac ip := by rw [← hip0]; exact hI'.held _ _ hl0
+  have hoth := request_others s m k hk
+  constructor
+  · intro h
+    have : Backed (request s m).1 k ip := Or.inl (by rw [hoth.1]; exact h)
+    exact hk (backing_unique hI' this hmine)
+  · intro l hl e
+    have : Backed (request s m).1 k ip := by rw [← e]; exact hI'.held _ _ (by rw [hoth.2]; exact hl)
+    exact hk (backing_unique hI' this hmine)
 
 /-- Everything served (OFFER or ACK `yiaddr`) is a host address of the pool's network that is not the network,
-    broadcast or gateway address, and was never declined. -/
-theorem v4_served_in_pool_partial (c : Cfg) (ops : List Op) (hn : noCircuitHit (init c) ops = true)
+    broadcast or gateway address and was never declined — or, in Nexus mode, is a Nexus allocation. -/
+theorem v4_served_in_pool_partial (c : Cfg) (hN : NexusOk c) (ops : List Op)
+    (hn : noCircuitHit (init c) ops = true)
     (op : Op) (hop : hits (run (init c) ops) op = false) (ip : Nat)
     (hs : served op (step (run (init c) ops) op).2 = some ip) :
-    c.usable ip = true ∧ ip ∉ (step (run (init c) ops) op).1.pool.unavailable := by
-  have hI := v4_bind4_partial c ops hn
+    (c.usable ip = true ∧ ip ∉ (step (run (init c) ops) op).1.pool.unavailable) ∨
+    (∃ k, c.nexusLookup k = some ip) := by
+  have hI := v4_bind4_partial c hN ops hn
   have hI' := bind4_step hI op hop
-  have hcfg : (run (init c) ops).cfg = c := run_cfg _ _
-  have hcfg' : (step (run (init c) ops) op).1.cfg = c := by rw [step_cfg, hcfg]
+  have hcfg' : (step (run (init c) ops) op).1.cfg = c := by rw [step_cfg, run_cfg]; rfl
   generalize run (init c) ops = s at *
-  -- after the step the served address is bound to the client in the pool
-  suffices h : ∃ k, lookup (step s op).1.pool.allocated k = some ip by
-    obtain ⟨k, hk⟩ := h
-    have := hI'.pool.allocOk _ _ hk
-    rw [hcfg'] at this
-    exact this
+  -- after the step the served address is backed for some client
+  suffices h : ∃ k, Backed (step s op).1 k ip by
+    obtain ⟨k, hk | hk⟩ := h
+    · have := hI'.pool.allocOk _ _ hk
+      rw [hcfg'] at this
+      exact Or.inl this
+    · rw [hcfg'] at hk; exact Or.inr ⟨k, hk⟩
   cases op with
   | discover m =>
     simp only [hits] at hop
-    have hex := existing_of_noHit hop
-    simp only [step, discover] at hs ⊢
-    rw [hex] at hs ⊢
-    cases e : lookup s.leases m.mac with
-    | some l =>
-      simp only [e] at hs ⊢
-      by_cases e2 : s.now < l.exp
-      · simp only [e2, if_true, served, Option.some.injEq] at hs ⊢
-        exact ⟨m.mac, by rw [← hs]; exact hI.held _ _ e⟩
-      · simp only [e2, if_false] at hs ⊢
-        cases e3 : s.pool.allocate m.mac with
-        | mk p r =>
-          cases r with
-          | none => simp [e3, served] at hs
-          | some a =>
-            simp only [e3, served, Option.some.injEq] at hs ⊢
-            have := allocate_some (p := s.pool) (mac := m.mac) (ip := a) (by rw [e3])
-            rw [e3] at this
-            exact ⟨m.mac, by rw [← hs]; exact this⟩
-    | none =>
-      simp only [e] at hs ⊢
-      cases e3 : s.pool.allocate m.mac with
-      | mk p r =>
-        cases r with
-        | none => simp [e3, served] at hs
-        | some a =>
-          simp only [e3, served, Option.some.injEq] at hs ⊢
-          have := allocate_some (p := s.pool) (mac := m.mac) (ip := a) (by rw [e3])
-          rw [e3] at this
-          exact ⟨m.mac, by rw [← hs]; exact this⟩
+    cases e : (discover s m).2 with
+    | offer a lt =>
+      simp only [step, e, served, Option.some.injEq] at hs
+      subst hs
+      exact ⟨m.mac, offer_backed hI hop e⟩
+    | ack a lt => simp [step, e, served] at hs
+    | nak => simp [step, e, served] at hs
+    | none => simp [step, e, served] at hs
   | request m =>
-    -- the ACKed address is the new lease's address, and the new state satisfies Bind4
-    have : ∀ s' lt, (step s (.request m)) = (s', .ack ip lt) → ∃ l, lookup s'.leases m.mac = some l ∧ l.ip = ip := by
-      intro s' lt h
-      simp only [step, request] at h
-      split at h
-      · split at h
-        · simp at h
-        · simp only [commit, Prod.mk.injEq, Reply.ack.injEq] at h
-          obtain ⟨h1, h2, _⟩ := h
-          subst h1; exact ⟨_, lookup_insert_self _ _ _, h2⟩
-      · split at h
-        · simp at h
-        · split at h
-          · simp only [commit, Prod.mk.injEq, Reply.ack.injEq] at h
-            obtain ⟨h1, h2, _⟩ := h
-            subst h1; exact ⟨_, lookup_insert_self _ _ _, h2⟩
-          · simp at h
-    cases e : step s (.request m) with
-    | mk s' r =>
-      rw [e] at hs hI'
-      cases r with
-      | ack a lt =>
-        simp only [served, Option.some.injEq] at hs
-        subst hs
-        obtain ⟨l, hl, hip⟩ := this s' lt e
-        exact ⟨m.mac, by rw [← hip]; exact hI'.held _ _ hl⟩
-      | offer a lt => simp [served] at hs
-      | nak => simp [served] at hs
-      | none => simp [served] at hs
+    cases e : (request s m).2 with
+    | ack a lt =>
+      simp only [step, e, served, Option.some.injEq] at hs
+      subst hs
+      obtain ⟨l, hl, hip⟩ := ack_lease e
+      exact ⟨m.mac, by rw [← hip]; exact hI'.held _ _ hl⟩
+    | offer a lt => simp [step, e, served] at hs
+    | nak => simp [step, e, served] at hs
+    | none => simp [step, e, served] at hs
   | release mac => simp [served] at hs
   | decline mac r => simp [served] at hs
   | inform mac => simp [served] at hs
   | advance dt => simp [served] at hs
   | cleanup order => simp [served] at hs
+  | cleanupApply t macs => simp [served] at hs
 
 /-- A client renewing its own binding is answered with the same value: whatever else the REQUEST contains, a
     client that has a lease is ACKed exactly its leased address when it asks for it and is refused (NAK) when it
@@ -202,57 +145,65 @@ theorem v4_rediscover_same (s : State) (m : Msg) (l : Lease) (hl : lookup s.leas
   rw [existing_of_own hl]
   simp [hlive]
 
-/-- A declined address is not offered again: once the holder of a lease has declined its address, no later OFFER
-    or ACK to anybody carries it, whatever happens in between. -/
-theorem v4_declined_not_reoffered_partial (c : Cfg) (pre post : List Op) (mac : Nat) (l : Lease)
+/-- A declined address is not offered again: once the holder of a lease on an address of the local pool has
+    declined it, no later OFFER or ACK to anybody carries it, whatever happens in between.
+    (A declined NEXUS allocation is offered again — recorded finding KF-dhcp4-nexus-decline.) -/
+theorem v4_declined_not_reoffered_partial (c : Cfg) (hN : NexusOk c) (pre post : List Op) (mac : Nat) (l : Lease)
     (hn : noCircuitHit (init c) (pre ++ [.decline mac (some l.ip)] ++ post) = true)
-    (hl : lookup (run (init c) pre).leases mac = some l)
+    (hl : lookup (run (init c) pre).leases mac = some l) (hloc : c.usable l.ip = true)
     (op : Op) (hop : hits (run (init c) (pre ++ [.decline mac (some l.ip)] ++ post)) op = false) :
     served op (step (run (init c) (pre ++ [.decline mac (some l.ip)] ++ post)) op).2 ≠ some l.ip := by
   intro hs
-  have h1 := (v4_served_in_pool_partial c _ hn op hop l.ip hs).2
-  apply h1
-  apply step_unavailable_mono
-  rw [run_append, run_append]
-  apply run_unavailable_mono
-  generalize run (init c) pre = s at hl ⊢
-  rw [run_cons]
-  show l.ip ∈ (decline s mac (some l.ip)).pool.unavailable
-  unfold decline
-  simp only [hl, ne_eq, not_true_eq_false, if_false]
-  exact mark_mem _ _
+  rcases v4_served_in_pool_partial c hN _ hn op hop l.ip hs with h1 | ⟨k, hk⟩
+  · apply h1.2
+    apply step_unavailable_mono
+    rw [run_append, run_append]
+    apply run_unavailable_mono
+    generalize run (init c) pre = s at hl ⊢
+    rw [run_cons]
+    show l.ip ∈ (decline s mac (some l.ip)).pool.unavailable
+    unfold decline
+    simp only [hl, ne_eq, not_true_eq_false, if_false]
+    exact mark_mem _ _
+  · have := hN.apart _ _ hk
+    rw [hloc] at this; simp at this
 
-/-- A released address becomes available again: right after the RELEASE it is on the free list. -/
-theorem v4_released_reusable_partial (c : Cfg) (ops : List Op) (hn : noCircuitHit (init c) ops = true)
-    (mac : Nat) (l : Lease) (hl : lookup (run (init c) ops).leases mac = some l) :
+/-- A released address of the local pool becomes available again: right after the RELEASE it is on the free list. -/
+theorem v4_released_reusable_partial (c : Cfg) (hN : NexusOk c) (ops : List Op)
+    (hn : noCircuitHit (init c) ops = true)
+    (mac : Nat) (l : Lease) (hl : lookup (run (init c) ops).leases mac = some l) (hloc : c.usable l.ip = true) :
     l.ip ∈ (release (run (init c) ops) mac).pool.avail := by
-  have hI := v4_bind4_partial c ops hn
+  have hI := v4_bind4_partial c hN ops hn
+  have hcfg : (run (init c) ops).cfg = c := run_cfg _ _
   generalize run (init c) ops = s at *
   unfold release
   simp only [hl]
-  exact release_avail (hI.held _ _ hl)
+  exact release_avail (held_local hI hl (by rw [hcfg]; exact hloc))
 
 /-- An expired address becomes available again: the next cleanup pass (whatever order the Go map is ranged in)
     puts the address of every lease whose time has run out on the free list. -/
-theorem v4_expired_reusable_partial (c : Cfg) (ops : List Op) (hn : noCircuitHit (init c) ops = true)
-    (mac : Nat) (l : Lease) (hl : lookup (run (init c) ops).leases mac = some l)
+theorem v4_expired_reusable_partial (c : Cfg) (hN : NexusOk c) (ops : List Op)
+    (hn : noCircuitHit (init c) ops = true)
+    (mac : Nat) (l : Lease) (hl : lookup (run (init c) ops).leases mac = some l) (hloc : c.usable l.ip = true)
     (hexp : (run (init c) ops).now > l.exp) (order : List Nat) :
     l.ip ∈ (cleanup (run (init c) ops) order).pool.avail := by
-  have hI := v4_bind4_partial c ops hn
+  have hI := v4_bind4_partial c hN ops hn
+  have hcfg : (run (init c) ops).cfg = c := run_cfg _ _
   generalize run (init c) ops = s at *
   unfold cleanup
-  apply foldl_expire_frees _ _ hI hl hexp
+  apply foldl_expire_frees _ _ hI hl (by rw [hcfg]; exact hloc) hexp
   simp only [List.mem_append]
   exact Or.inr (mem_keys_of_lookup hl)
 
-/-- … and "available" means obtainable: any address on the free list is ACKed to a client without a lease that
-    asks for it, and a DISCOVER from a client that holds nothing is answered whenever the free list is non-empty. -/
-theorem v4_free_is_obtainable_partial (c : Cfg) (ops : List Op) (hn : noCircuitHit (init c) ops = true)
+/-- … and "available" means obtainable: any address on the free list is ACKed to a client without a lease (and
+    without a Nexus allocation) that asks for it. -/
+theorem v4_free_is_obtainable_partial (c : Cfg) (hN : NexusOk c) (ops : List Op)
+    (hn : noCircuitHit (init c) ops = true)
     (ip : Nat) (hfree : ip ∈ (run (init c) ops).pool.avail)
-    (m : Msg) (hnew : lookup (run (init c) ops).leases m.mac = none)
+    (m : Msg) (hnew : lookup (run (init c) ops).leases m.mac = none) (hnx : c.nexusLookup m.mac = none)
     (hm : circuitHit (run (init c) ops) m = false) (hreq : m.requested = some ip) :
     (request (run (init c) ops) m).2 = .ack ip c.leaseTime := by
-  have hI := v4_bind4_partial c ops hn
+  have hI := v4_bind4_partial c hN ops hn
   have hcfg : (run (init c) ops).cfg = c := run_cfg _ _
   generalize run (init c) ops = s at *
   have hus := (hI.pool.availOk ip hfree).1
@@ -265,7 +216,9 @@ theorem v4_free_is_obtainable_partial (c : Cfg) (ops : List Op) (hn : noCircuitH
     rw [hcfg]; unfold Cfg.contains; unfold Cfg.bcast at hus
     simp only [Bool.and_eq_true, decide_eq_true_eq]; omega
   unfold request
-  rw [existing_of_noHit hm, hnew, hr]
+  rw [existing_of_noHit hm, hnew, hr, hcfg, hnx]
+  simp only []
+  rw [← hcfg]
   simp only [hcont, Bool.not_true, Bool.false_eq_true, if_false]
   have := (reserve_true_iff (p := s.pool) (mac := m.mac) (ip := ip)).mpr (Or.inr hfree)
   cases e : s.pool.reserve m.mac ip with
@@ -273,20 +226,38 @@ theorem v4_free_is_obtainable_partial (c : Cfg) (ops : List Op) (hn : noCircuitH
     rw [e] at this
     simp only at this
     subst this
-    simp [commit, hcfg]
+    simp [commit]
 
+/-- a DISCOVER from a client that holds nothing is answered whenever the free list is non-empty -/
 theorem v4_discover_answered_when_free (s : State) (m : Msg) (hm : existing s m = none)
     (hfree : s.pool.avail ≠ []) : ∃ ip, (discover s m).2 = .offer ip s.cfg.leaseTime := by
   unfold discover
   rw [hm]
   simp only
-  unfold Pool.allocate
-  cases e : lookup s.pool.allocated m.mac with
-  | some a => exact ⟨a, by simp⟩
+  cases e0 : s.cfg.nexusLookup m.mac with
+  | some nip => exact ⟨nip, rfl⟩
   | none =>
-    cases e2 : s.pool.avail with
-    | nil => exact absurd e2 hfree
-    | cons a rest => exact ⟨a, by simp⟩
+    simp only
+    unfold Pool.allocate
+    cases e : lookup s.pool.allocated m.mac with
+    | some a => exact ⟨a, by simp⟩
+    | none =>
+      cases e2 : s.pool.avail with
+      | nil => exact absurd e2 hfree
+      | cons a rest => exact ⟨a, by simp⟩
+
+/-! ### the cleanup pass, split where it drops its read lock (reviewer item C02-a; fixed by repo bb6b2ef)
+
+    `cleanupExpiredLeases` collects the expired MACs under a read lock and removes them under a write lock; packet
+    handlers run in between.  All theorems above already quantify over such histories (`Op.cleanupApply t macs`
+    after arbitrary messages).  In addition: -/
+
+/-- the removal never touches a lease that is not expired at the scan time — a lease renewed (or created) between
+    the scan and the removal survives, whatever list the scan produced. -/
+theorem v4_cleanup_spares_renewed (s : State) (t : Nat) (macs : List Nat) (mac : Nat) (l : Lease)
+    (hl : lookup s.leases mac = some l) (hlive : ¬ t > l.exp) :
+    lookup (step s (.cleanupApply t macs)).1.leases mac = some l :=
+  applyList_spares t macs s mac l hl hlive
 
 /-! ### finding D9 (known): the circuit-id index is used as a client identity.
     Client 1 obtains 10.0.0.2 through a relay that adds circuit-id 1.  Client 2 sends a relayed REQUEST with the
@@ -345,6 +316,82 @@ theorem KF_dhcp4_offer_pinned_witness (ops : List Op)
         exact hF t o
       rw [this]
       exact ih' t
+
+/-! ### the cleanup gap BEFORE repo bb6b2ef (fixed): the removal loop used `s.leases[mac]` unchecked.
+    Lease time 290 s: client 1 is ACKed 10.0.0.2 at 0; at 300 the lease has run out and the scan finds [1].
+    (a) client 1 RELEASEs before the removal: nil dereference — the process dies holding the lease lock.
+    (b) client 1 RENEWs before the removal (ACK 10.0.0.2, good until 590): the removal deletes the fresh lease and
+        frees the address, and client 2's REQUEST for it is ACKed at the same instant — two clients hold ACKs for
+        one address.  With the fixed removal (`Op.cleanupApply`) client 2 is refused. -/
+def cfg290 : Cfg := { base := 0x0a000000, plen := 29, gateway := 0x0a000001, leaseTime := 290 }
+def gapState : State :=
+  run (init cfg290) [.request { mac := 1, requested := some 0x0a000002 }, .advance 300]
+
+theorem cleanup_gap_witness :
+    expiredList gapState [] = [1] ∧
+    applyUnchecked (release gapState 1) [1] = none ∧
+    (request gapState { mac := 1, requested := some 0x0a000002 }).2 = .ack 0x0a000002 290 ∧
+    (∃ s', applyUnchecked (request gapState { mac := 1, requested := some 0x0a000002 }).1 [1] = some s' ∧
+        lookup s'.leases 1 = none ∧
+        (request s' { mac := 2, requested := some 0x0a000002 }).2 = .ack 0x0a000002 290) ∧
+    (request (applyList 300 (request gapState { mac := 1, requested := some 0x0a000002 }).1 [1])
+        { mac := 2, requested := some 0x0a000002 }).2 = .nak := by
+  refine ⟨by decide, by decide, by decide, ⟨_, rfl, by decide, by decide⟩, by decide⟩
+
+/-! ### Nexus / HTTP-allocator mode BEFORE repo d4aaa77 (fixed): with the allocator configured the new-session
+    branch of handleRequest skipped every check.  `requestUnchecked` is that branch as it was. -/
+def requestUnchecked (s : State) (m : Msg) : State × Reply := commit s m (requestedOf m) m.cid
+
+def cfgNexus : Cfg :=
+  { base := 0x0a000000, plen := 29, gateway := 0x0a000001, leaseTime := 300, nexusMode := true,
+    nexus := [(1, 0x0a010005)] }
+
+theorem nexus_request_witness :
+    let s1 := (requestUnchecked (init cfgNexus) { mac := 1, requested := some 0x0a010005 }).1
+    let s2 := (requestUnchecked s1 { mac := 2, requested := some 0x0a010005 }).1
+    (∃ l₁ l₂, lookup s2.leases 1 = some l₁ ∧ lookup s2.leases 2 = some l₂ ∧ l₁.ip = l₂.ip) ∧
+    -- the fixed code refuses client 2 (and the gateway, and an address outside every pool)
+    (request (request (init cfgNexus) { mac := 1, requested := some 0x0a010005 }).1
+        { mac := 2, requested := some 0x0a010005 }).2 = .nak ∧
+    (request (init cfgNexus) { mac := 3, requested := some 0x0a000001 }).2 = .nak ∧
+    (request (init cfgNexus) { mac := 3, requested := some 0xc0a86363 }).2 = .nak := by
+  refine ⟨⟨⟨1, 0x0a010005, 300, none⟩, ⟨2, 0x0a010005, 300, none⟩, by decide, by decide, rfl⟩,
+    by decide, by decide, by decide⟩
+
+/-- the assumption about Nexus is satisfiable, and holds vacuously without the allocator -/
+theorem nexusOk_examples : NexusOk cfgNexus ∧ NexusOk cfg29 := by
+  refine ⟨⟨?_, ?_⟩, nexusOk_off rfl⟩
+  · intro k k' a h h'
+    simp only [Cfg.nexusLookup, cfgNexus, if_true, lookup_cons, lookup_nil] at h h'
+    split at h <;> split at h' <;> simp_all
+  · intro k a h
+    simp only [Cfg.nexusLookup, cfgNexus, if_true, lookup_cons, lookup_nil] at h
+    split at h
+    · simp only [Option.some.injEq] at h; subst h; decide
+    · simp at h
+
+/-! ### finding KF-dhcp4-nexus-decline (known): a DECLINE of a Nexus-allocated address cannot reach Nexus, so the
+    next DISCOVER of the same client is offered the declined address again. -/
+theorem KF_dhcp4_nexus_decline_witness :
+    let s := run (init cfgNexus) [.request { mac := 1, requested := some 0x0a010005 },
+                                  .decline 1 (some 0x0a010005)]
+    lookup s.leases 1 = none ∧ 0x0a010005 ∈ s.pool.unavailable ∧
+    (discover s { mac := 1 }).2 = .offer 0x0a010005 300 := by
+  refine ⟨by decide, by decide, by decide⟩
+
+/-! ### finding KF-dhcp4-expired-reoffer (known): a DISCOVER from a client whose lease has run out but was not
+    cleaned up yet is answered from the pool binding of that lease; the expired lease stays in the table, so the
+    next cleanup pass frees the address although the OFFER is seconds old — and the address is offered to the
+    next client at once.  (In the model "offered" is the pool binding, which is gone, so the theorems above are
+    not contradicted; on the wire two clients hold an OFFER of one address.) -/
+def cfg30b : Cfg := { base := 0x0a000008, plen := 30, gateway := 0x0a000009, leaseTime := 290 }
+
+theorem KF_dhcp4_expired_reoffer_witness :
+    -- ONE usable address; client 1's lease on it ended at 290, now = 300, no cleanup pass yet
+    let s := run (init cfg30b) [.request { mac := 1, requested := some 0x0a00000a }, .advance 300]
+    (discover s { mac := 1 }).2 = .offer 0x0a00000a 290 ∧
+    (discover (cleanup (discover s { mac := 1 }).1 []) { mac := 9 }).2 = .offer 0x0a00000a 290 := by
+  refine ⟨by decide, by decide⟩
 
 /-! non-vacuity: the hypotheses are satisfiable and the conclusions are about real behaviour -/
 example : noCircuitHit (init cfg29)
